@@ -14,6 +14,8 @@ import (
 	"go.sia.tech/core/types"
 	"go.sia.tech/coreutils/chain"
 	"go.sia.tech/coreutils/syncer"
+	"go.uber.org/zap"
+	"go.uber.org/zap/zapcore"
 	"verif/harness/lab/chainlab"
 )
 
@@ -39,6 +41,9 @@ type NodeOpts struct {
 	// durations up to Jitter (schedule perturbation).
 	Jitter     time.Duration
 	JitterSeed uint64
+	// KeepLog keeps the tail of the syncer's debug log in memory (diagnosis of
+	// stalls; not used by any oracle).
+	KeepLog bool
 	// KnownPeers are put into the peer store before the syncer starts.
 	KnownPeers []string
 	ExtraOpts  []syncer.Option
@@ -65,6 +70,39 @@ type Node struct {
 	jrng       *rand.Rand
 	Reconnects atomic.Int64
 	runErr     atomic.Value
+	log        *logRing
+}
+
+// logRing keeps the last lines written to it.
+type logRing struct {
+	mu    sync.Mutex
+	max   int
+	lines []string
+}
+
+func (l *logRing) Write(p []byte) (int, error) {
+	l.mu.Lock()
+	if len(l.lines) >= l.max {
+		copy(l.lines, l.lines[1:])
+		l.lines = l.lines[:len(l.lines)-1]
+	}
+	line := string(p)
+	if len(line) > 400 {
+		line = line[:400]
+	}
+	l.lines = append(l.lines, line)
+	l.mu.Unlock()
+	return len(p), nil
+}
+
+// LogTail returns the kept tail of the syncer's debug log.
+func (n *Node) LogTail() []string {
+	if n.log == nil {
+		return nil
+	}
+	n.log.mu.Lock()
+	defer n.log.mu.Unlock()
+	return append([]string(nil), n.log.lines...)
 }
 
 func (n *Node) jitter() {
@@ -214,6 +252,12 @@ func NewNode(o NodeOpts) (*Node, error) {
 	}
 	if o.MaxOutbound > 0 {
 		opts = append(opts, syncer.WithMaxOutboundPeers(o.MaxOutbound))
+	}
+	if o.KeepLog {
+		n.log = &logRing{max: 400}
+		enc := zapcore.NewConsoleEncoder(zapcore.EncoderConfig{MessageKey: "m", LevelKey: "l", TimeKey: "t", NameKey: "n",
+			EncodeLevel: zapcore.LowercaseLevelEncoder, EncodeTime: zapcore.TimeEncoderOfLayout("05.000"), EncodeDuration: zapcore.StringDurationEncoder})
+		opts = append(opts, syncer.WithLogger(zap.New(zapcore.NewCore(enc, zapcore.AddSync(n.log), zap.DebugLevel))))
 	}
 	opts = append(opts, o.ExtraOpts...)
 	n.S = syncer.New(l, n.ACM, n.PS, gateway.Header{GenesisID: env.Genesis.ID(), UniqueID: n.UID, NetAddress: n.Addr}, opts...)
